@@ -29,8 +29,8 @@ TEXT = {
         'design_ref': 'DESIGN.md §4 C11',
     },
     'C06': {
-        'text': 'Partial: one tree level, every case. Verus proves on the extracted generate_correction_word and eval_next (abstract seeds with xor, XOF expansion uninterpreted, values in the abstract field) that they compute the specified construction and, as a theorem over the two contracts, that on the input path the parties keep differing control bits and their shares sum to the programmed value, that leaving the path makes keys and control bits equal with shares summing to zero, and that off the path this is preserved. Kani proves the seed helpers, the value select/negate contracts and the off-path step on the compiled code (all seeds/bits/values symbolic).',
-        'note': 'NOT decided: the induction over the level loops (bitvec-indexed, cache-mediated), Field255 leaves, cache transparency (bitvec normalisation): a change to NormalizedBitVec is not detected.',
+        'text': 'Key generation and evaluation from the root, every tree depth; caches excluded. Verus proves on the extracted generate_correction_word and eval_next (abstract seeds with xor, XOF expansion uninterpreted, values in the abstract field) that they compute the specified construction and, as a theorem over the two contracts, that on the input path the parties keep differing control bits and their shares sum to the programmed value, that leaving the path makes keys and control bits equal with shares summing to zero, and that off the path this is preserved; Idpf::gen_with_random and Idpf::eval_from_node (whole functions, level loops included) are proved to iterate exactly that construction, and theorem_idpf_end_to_end composes them: for every depth, input, value vector and prefix the shares sum to the programmed value on the path and to zero off it. Kani proves the seed helpers, the value select/negate contracts and the off-path step on the compiled code (all seeds/bits/values symbolic).',
+        'note': 'NOT decided: Idpf::eval resuming from a cached node (cache transparency; bitvec normalisation: a change to NormalizedBitVec is not detected), bitvec storage of IdpfInput, the public-share codec; inner and leaf values are modelled as one abstract field type.',
         'technique': 'function contracts against spec functions + a level theorem over the contracts on extracted real code (Verus); function contracts on compiled code with uninterpreted XOF expansion (Kani/CBMC)',
         'design_ref': 'DESIGN.md §4 C06',
     },
